@@ -1,0 +1,48 @@
+//go:build verif
+
+package algo
+
+// Contracts for the govc verifier (/verif/DESIGN.md). Package clause and comments only.
+//
+// What is under contract here is the set algebra built on top of the component reach computation and
+// the cursor bookkeeping of the DFS. The reach computation itself (iterative Tarjan, component DFS with
+// the bounded cache, bidirectional search) is covered by the bounded stand-in of C15 only: its
+// invariants need a transitive-closure spec the solvers do not handle reliably.
+
+//@ import graph "github.com/specterops/dawgs/graph"
+//@ import cardinality "github.com/specterops/dawgs/cardinality"
+
+// reachSet(s, member, direction): the members of every component reachable from member's component
+// (its own component included). Uninterpreted: the contract of ReachOfComponentContainingMember below
+// is assumed (it is what the bounded stand-in checks against plain BFS) and the algebra on top is proved.
+//@ pure func reachSet(s *ReachabilityCache, member uint64, d graph.Direction) set[uint64]
+
+//@ func (s *ReachabilityCache) ReachOfComponentContainingMember(member uint64, direction graph.Direction) cardinality.Duplex[uint64]
+//@   trusted
+//@   requires s != nil
+//@   modifies all(ghost:set.V)
+//@   ensures result != nil && fresh(cellof(result)) && viewof(result) == reachSet(s, member, direction)
+//@   ensures forall c int :: old(allocated(c)) ==> setview(c) == old(setview(c))
+
+//@ func (s *ReachabilityCache) OrReach(node uint64, direction graph.Direction, duplex cardinality.Duplex[uint64])
+//@   requires s != nil && duplex != nil && allocated(cellof(duplex))
+//@   modifies all(ghost:set.V)
+//@   ensures viewof(duplex) == (old(viewof(duplex)) union reachSet(s, node, direction)) minus {node}
+
+//@ func (s *reachCursor) NextAdjacent() (uint64, bool)
+//@   requires s != nil && 0 <= s.adjacentIdx
+//@   modifies s.adjacentIdx
+//@   ensures old(s.adjacentIdx) < len(s.adjacent) ==> result.1 && result.0 == s.adjacent[old(s.adjacentIdx)] && s.adjacentIdx == old(s.adjacentIdx) + 1
+//@   ensures old(s.adjacentIdx) >= len(s.adjacent) ==> !result.1 && s.adjacentIdx == old(s.adjacentIdx)
+
+//@ func (s *reachCursor) Complete()
+//@   requires s != nil && s.reach != nil && allocated(cellof(s.reach)) && (s.ancestor != nil ==> s.ancestor.reach != nil && cellof(s.ancestor.reach) != cellof(s.reach))
+//@   modifies setview(cellof(s.ancestor.reach)), s.ancestor.incomplete
+//@   ensures s.ancestor != nil ==> viewof(s.ancestor.reach) == old(viewof(s.ancestor.reach)) union old(viewof(s.reach))
+//@   ensures s.ancestor != nil ==> s.ancestor.incomplete == (old(s.ancestor.incomplete) || s.incomplete)
+//@   ensures viewof(s.reach) == old(viewof(s.reach))
+
+//@ func (s *ReachabilityCache) XorReach(node uint64, direction graph.Direction, duplex cardinality.Duplex[uint64])
+//@   requires s != nil && duplex != nil && allocated(cellof(duplex))
+//@   modifies all(ghost:set.V)
+//@   ensures forall y uint64 :: (y in viewof(duplex)) == (old(y in viewof(duplex)) != (y in reachSet(s, node, direction) && y != node))
